@@ -539,6 +539,9 @@ UINT_LITS = [
 ]
 
 
+from . import clausegen
+
+
 def order_entries():
     """the same set of flags written in the OTHER order LLVM accepts; attribute arguments at the ends of their ranges; numbering across entity kinds"""
     out = []
@@ -561,6 +564,9 @@ def order_entries():
     # one counter of unnamed globals across global variables, functions, aliases and ifuncs
     out.append(("numbering.unnamed-alias-then-global", "@0 = global i32 0\n@1 = alias i32, i32* @0\n@2 = global i32 2\n\ndeclare void @3()\n", ["alias i32, i32* @0", "global i32 2", "declare void"]))
     out.append(("numbering.unnamed-ifunc-then-func", "@0 = ifunc void (), void ()* ()* @1\n\ndefine void ()* @1() {\n\tret void ()* null\n}\n\ndeclare void @2()\n\n@3 = global i8 1\n", ["ifunc void ()", "global i8 1"]))
+    # entities of other namespaces with IDs of their own between unnamed globals (the counter of unnamed globals is theirs alone)
+    out.append(("numbering.attrgroup-before-unnamed", "attributes #1 = { nounwind }\n@0 = global i32 0\n@1 = global i32 1\n@p = global i32* @1\n\ndeclare void @2() #1\n", ["@p = global i32* @1", "@1 = global i32 1"]))
+    out.append(("numbering.attrgroup-between-unnamed", "@0 = global i32 0\nattributes #0 = { nounwind }\n@1 = global i32 1\n!5 = !{}\n@2 = global i32* @1\n", ["@2 = global i32* @1"]))
     # a float held at full precision that prints in DECIMAL notation (the reader of decimal literals must keep all 24 / 11 / 53 significand bits)
     out.append(("float.full-precision-decimal", "@g = global float 0x416FFFFFE0000000\n@h = global float 0x4150000020000000\n", ["float 1.6777215e+07", "float 4.1943045e+06"]))
     out.append(("double.full-precision-decimal", "@g = global double 9007199254740991.0\n@h = global half 0xH67FF\n", ["double 9.007199254740991e+15", "half 2047.0"]))
@@ -568,4 +574,4 @@ def order_entries():
 
 
 def all_entries(rows):
-    return kw_entries(rows) + STRUCTURED + NAMED_NONSTRUCT + inst_entries() + DI + comdat_entries() + flag_cross_entries() + addrspace_cross_entries() + written_type_entries() + REPEATS + UINT_LITS + order_entries() + DI_REFS
+    return kw_entries(rows) + STRUCTURED + NAMED_NONSTRUCT + inst_entries() + DI + comdat_entries() + flag_cross_entries() + addrspace_cross_entries() + written_type_entries() + REPEATS + UINT_LITS + order_entries() + DI_REFS + clausegen.all_entries()
